@@ -303,6 +303,12 @@ pub fn run(ctx: &Ctx) -> (Spec, Report) {
         let offending: Vec<String> = files.iter().map(|f| f.path.clone()).collect();
         let v = judge_bin(ctx, &o, out_exists, &offending, e.class, mode, lname);
         for (sig, what) in v.sigs {
+            // "Could not get parsed data": no scanned file yielded an item and none reported an error (the library
+            // driver agrees) - there is no offending file a diagnostic could name
+            if sig.ends_with("|nothing-to-generate") && matches!(&lo, LibOutcome::GenError(m) if m.contains("Could not get parsed data")) {
+                rep.count("nothing_to_generate_runs_without_offending_file", 1);
+                continue;
+            }
             if sig.starts_with("INCONCLUSIVE") {
                 rep.inconclusive("watchdog-without-diagnosis", json!({"class": e.class, "diag": what}));
             } else {
